@@ -64,3 +64,22 @@ def rand_labels(rng, n, ngroups, p_missing=0.0, style=None):
 
 def has_special(vals):
     return any(isinstance(v, str) for v in vals)
+
+
+def tie_heavy_cases(rng, n):
+    """position-sensitive reductions beyond the small scope: 150-400 elements from a two-value alphabet (ties everywhere, also
+    across chunk boundaries), 25-60 groups, 8-24 blocks, shallow and deep trees (split_every 2 / default / number of blocks):
+    a combine step sees far more than 64 candidates"""
+    out = []
+    for _ in range(n):
+        m = rng.randint(150, 400)
+        ng = rng.randint(25, 60)
+        func = rng.choice(["argmax", "argmin", "nanargmax", "nanargmin", "nanfirst", "nanlast"])
+        vals = [rng.choice([0, 1]) for _ in range(m)]
+        if func.startswith("nan"):
+            vals = [v if rng.random() > 0.1 else "nan" for v in vals]
+        labels = [rng.randrange(ng) for _ in range(m)]
+        chunks = random_composition(rng, m, rng.randint(8, 24))
+        out.append({"func": func, "vals": vals, "labels": labels, "chunks": [list(chunks)], "method": rng.choice([None, "map-reduce", "cohorts"]),
+                    "engine": "numpy", "split_every": rng.choice([None, 2, max(2, len(chunks))]), "expected": list(range(ng)), "fill_value": -1})
+    return out
